@@ -416,6 +416,12 @@ def hardwired_names(chk, F, rule="hardwired-names-exist"):
     for m in H.method_calls(h["body"], "insert"):
         if "decomposition_units" in H.expr_str(m["recv"]) and m["args"] and m["args"][0].get("k") == "Lit":
             lits.append(m["args"][0]["lit"]["v"])
+    # ... or the set is written as one literal list (`let decomposition_units: BTreeSet<_> = ["newton", ..].into_iter().collect()`)
+    for k, st in [(k, st) for b in hir_walk(h["body"]) if b.get("k") == "Block" for k, st in H.stmts_of(b)]:
+        if k == "let" and st.get("pat", {}).get("name") == "decomposition_units" and st.get("init"):
+            for e in hir_walk(st["init"]):
+                if e.get("k") == "Lit" and e["lit"].get("lit") == "str" and e["lit"]["v"] not in lits:
+                    lits.append(e["lit"]["v"])
     f = folder()
     bad = []
     for n in lits:
